@@ -17,6 +17,18 @@ CLAIMED = {
         "termination is bounded by a watchdog (60 s, re-run at 600 s).",
         "Hypothesis grammar + soup + fault injection; crash/termination oracle with call-site bucketing",
     ),
+    "C03": (
+        "Hypothesis documents from the full grammar x valid configurations, identifier-collision documents (names from a "
+        "pool that includes look-alikes of docutils' automatic ids and case variants, used by headings, targets, attribute "
+        "ids, footnotes, math labels and directive :name: options), ragged / nested GFM tables and list- / csv-table "
+        "directives, and the cross-reference vocabulary of the totality check; each checked directly after parsing and "
+        "after the transform pipeline (docutils) and after read + post-transforms (Sphinx); oracle: validity predicate "
+        "over the tree (parent pointers, single occurrence, section / transition placement, id uniqueness and registry, "
+        "refid / backref resolution, row widths, footnote labels); bounded search.",
+        "Cases whose rendering raises belong to C01; suppress_warnings is stripped (C14); system messages held in "
+        "document.transform_messages count as present; Sphinx removes system messages by design.",
+        "Hypothesis grammar + collision generators; validity-predicate (invariant) oracle in three phases",
+    ),
     "C04": (
         "Every wrapper shape (block quote, bullet / ordered list, div, and 72 directive layouts: 2 names x backtick / colon "
         "fence x 3 option styles x 0-2 blank lines before the body x 0-1 before the closing fence) to depth 2 (thorough: 3) "
